@@ -32,6 +32,9 @@ RULE = (
     "raise_on_no_answer, cache none/Cache/LRUCache (pre-seeded or not), lifetime 0.5-10 s. Exhaustive: 2 servers x all scripts "
     "of length <= 4 (quick) / 5 (thorough) over 8 outcome kinds. Distinct by (outcome-kind sequence prefix, settings class, result class)."
 )
+RULE += " " + (
+    "Also: long relative names whose search-list combinations exceed 255 octets; the shipped Do53Nameserver's query / async_query compared call by call through recording transport functions."
+)
 ASSUMPTIONS = [
     "reference decision procedure B4 in this file (DESIGN.md Appendix B4)",
     "'a broken server is never asked again' is scoped to one candidate name; the back-off sleep may overshoot the lifetime by at most 2 s",
